@@ -30,8 +30,6 @@ var (
 
 // Info returns the cached pruned CFG of fn.
 func Info(fn *ssa.Function) *FnInfo {
-	fnInfoMu.Lock()
-	defer fnInfoMu.Unlock()
 	if fi := fnInfos[fn]; fi != nil {
 		return fi
 	}
